@@ -995,6 +995,10 @@ class Parser:
                         f"{fname} is a reserved field name for internal use."
                     )
 
+                # field names follow the rule for all names (start with a letter): a leading
+                # underscore is not a valid matlab field name, two are mangled by python
+                self.check_name(fname)
+
                 if not isinstance(fstr, str):
                     raise InvalidTypeError(
                         f"Field types must be a string not {type(fstr).__name__}: {mdf.name}=> {fname}: {fstr} -> {self.current_file}"
